@@ -60,8 +60,9 @@ type Goroutine struct {
 	id     int
 	frames []*Frame
 	done   bool
-	// blocked description for the scheduler
-	waitOn string
+	wait         *waitDesc
+	resumed      bool
+	timerPending bool
 }
 
 type State struct {
@@ -85,6 +86,10 @@ type State struct {
 	trace  []string
 	subst  map[int]*Term
 	lastNow *Term
+	redirects map[string]*FuncV
+	switchesLeft int
+	preemptSync  bool
+	noTimers     bool
 	mvars  []*Term
 	model  *Model
 	memo   map[int]*Term
@@ -170,6 +175,8 @@ func (s *State) clone(e *Engine) *State {
 		}
 	}
 	n.lastNow = s.lastNow
+	n.redirects = s.redirects
+	n.switchesLeft, n.preemptSync, n.noTimers = s.switchesLeft, s.preemptSync, s.noTimers
 	n.nd = s.nd[:len(s.nd):len(s.nd)]
 	n.mvars = s.mvars[:len(s.mvars):len(s.mvars)]
 	n.model = s.model
@@ -177,7 +184,7 @@ func (s *State) clone(e *Engine) *State {
 	n.trace = s.trace[:len(s.trace):len(s.trace)]
 	n.gs = make([]*Goroutine, len(s.gs))
 	for i, g := range s.gs {
-		ng := &Goroutine{id: g.id, done: g.done, waitOn: g.waitOn}
+		ng := &Goroutine{id: g.id, done: g.done, wait: g.wait, resumed: g.resumed, timerPending: g.timerPending}
 		ng.frames = make([]*Frame, len(g.frames))
 		for j, f := range g.frames {
 			nf := *f
